@@ -39,7 +39,7 @@ Inductive instr :=
 | IHalt.
 
 (* owner codes *)
-Definition FRESH : nat := 0.       (* in a pool, never handed out in this run *)
+Definition FRESH : nat := 0.       (* in a pool, never handed out in this own_run *)
 Definition RELEASED : nat := 1.    (* back in a pool *)
 Definition owned (t : nat) : nat := 2 + t.
 (* pseudo-threads (kept small: the certificate check compares unary numbers); real threads are 0..2 *)
@@ -59,29 +59,29 @@ Record proto := mkProto {
   p_cap : list nat;           (* channel capacities *)
   p_flags0 : list nat }.
 
-Fixpoint upd {A} (l : list A) (i : nat) (v : A) : list A :=
+Fixpoint own_upd {A} (l : list A) (i : nat) (v : A) : list A :=
   match l, i with
   | [], _ => []
   | _ :: r, 0 => v :: r
-  | x :: r, S k => x :: upd r k v
+  | x :: r, S k => x :: own_upd r k v
   end.
 
-Definition init (P : proto) : mstate :=
+Definition own_init (P : proto) : mstate :=
   mkSt (map (fun _ => 0) (p_threads P)) (p_own0 P) (map (fun _ => 0) (p_own0 P)) (map (fun _ => []) (p_cap P)) (p_flags0 P)
        (map (fun _ => 0) (p_threads P)) 0.
 
 Definition setpc (s : mstate) (t pc : nat) : mstate :=
-  mkSt (upd (pcs s) t pc) (own s) (lent s) (chans s) (flags s) (regs s) (viol s).
+  mkSt (own_upd (pcs s) t pc) (own s) (lent s) (chans s) (flags s) (regs s) (viol s).
 Definition setown (s : mstate) (o w : nat) : mstate :=
-  mkSt (pcs s) (upd (own s) o w) (lent s) (chans s) (flags s) (regs s) (viol s).
+  mkSt (pcs s) (own_upd (own s) o w) (lent s) (chans s) (flags s) (regs s) (viol s).
 Definition setchan (s : mstate) (c : nat) (q : list nat) : mstate :=
-  mkSt (pcs s) (own s) (lent s) (upd (chans s) c q) (flags s) (regs s) (viol s).
+  mkSt (pcs s) (own s) (lent s) (own_upd (chans s) c q) (flags s) (regs s) (viol s).
 Definition setflag (s : mstate) (f v : nat) : mstate :=
-  mkSt (pcs s) (own s) (lent s) (chans s) (upd (flags s) f v) (regs s) (viol s).
+  mkSt (pcs s) (own s) (lent s) (chans s) (own_upd (flags s) f v) (regs s) (viol s).
 Definition setreg (s : mstate) (t o : nat) : mstate :=
-  mkSt (pcs s) (own s) (lent s) (chans s) (flags s) (upd (regs s) t o) (viol s).
+  mkSt (pcs s) (own s) (lent s) (chans s) (flags s) (own_upd (regs s) t o) (viol s).
 Definition setlent (s : mstate) (o b : nat) : mstate :=
-  mkSt (pcs s) (own s) (upd (lent s) o b) (chans s) (flags s) (regs s) (viol s).
+  mkSt (pcs s) (own s) (own_upd (lent s) o b) (chans s) (flags s) (regs s) (viol s).
 Definition flag_viol (s : mstate) (v : nat) : mstate :=
   mkSt (pcs s) (own s) (lent s) (chans s) (flags s) (regs s) (if viol s =? 0 then v else viol s).
 
@@ -157,15 +157,15 @@ Definition bad (s : mstate) : bool := negb (viol s =? 0).
 (* ------------------------------------------------------------------ schedules *)
 Inductive pick := T (t k : nat) (* k-th alternative of thread t's next action *) | E (o : nat) (* environment toggles o *).
 
-Fixpoint run (P : proto) (s : mstate) (sched : list pick) : option mstate :=
+Fixpoint own_run (P : proto) (s : mstate) (sched : list pick) : option mstate :=
   match sched with
   | [] => Some s
   | T t k :: r =>
       if t <? length (p_threads P)
-      then match nth_error (tstep P s t) k with Some s' => run P s' r | None => None end else None
+      then match nth_error (tstep P s t) k with Some s' => own_run P s' r | None => None end else None
   | E o :: r =>
       if o <? length (p_own0 P)
-      then match envstep P s o with s' :: _ => run P s' r | [] => None end else None
+      then match envstep P s o with s' :: _ => own_run P s' r | [] => None end else None
   end.
 
 (* ------------------------------------------------------------------ state equality, exploration, certificate check *)
@@ -209,11 +209,11 @@ Fixpoint explore (P : proto) (fuel : nat) (seen todo : list mstate) : list mstat
            end
   end.
 
-Definition states (P : proto) : list mstate := explore P (200 * 200) [init P] [init P].
+Definition states (P : proto) : list mstate := explore P (200 * 200) [own_init P] [own_init P].
 
 (* the certificate check: S contains the initial state, is closed under every step, and has no bad state *)
 Definition check (P : proto) (S : list mstate) : bool :=
-  mem (init P) S &&
+  mem (own_init P) S &&
   forallb (fun s => negb (bad s) && forallb (fun s' => mem s' S) (succs P s)) S.
 
 (* ------------------------------------------------------------------ the protocols *)
@@ -248,10 +248,10 @@ Definition udp_h (mreg : nat) : list instr :=
     IRd 5; IRel 5 ] ++          (* writeResp; pool.ReleaseBuf(b) *)
   release_rc 2 4 ++             (* deferred, LIFO: releaseRequestContext(rc) first *)
   [ IRel 1; IHalt ].            (* then dnsmsg.ReleaseMsg(m) *)
-Definition P_udp : proto :=
+Definition Pown_udp : proto :=
   mkProto [udp_rl 1; udp_h 1] [0;0;0;0;0;0] [false;true;true;true;true;true] [] [0].
 (* what would happen if the decoded message aliased the receive buffer: the handler's reads of m become reads of rb *)
-Definition P_udp_alias : proto :=
+Definition Pown_udp_alias : proto :=
   mkProto [udp_rl 0; udp_h 0] [0;0;0;0;0;0] [false;true;true;true;true;true] [] [0].
 
 (* (1b) TCP: server_tcp.go handleConn/handleReq + dnsutils.ReadMsgFromTCP.  Threads: 0 connection loop, 1 handler.
@@ -271,7 +271,7 @@ Definition tcp_h : list instr :=
     IRd 6; IRel 6;                        (* c.Write(buf); ReleaseBuf(buf) *)
     IRel 2 ] ++                           (* dnsmsg.ReleaseMsg(m) *)
   release_rc 3 5 ++ [ IHalt ].
-Definition P_tcp : proto :=
+Definition Pown_tcp : proto :=
   mkProto [tcp_cl; tcp_h] [0;0;0;0;0;0;0] [true;true;true;true;true;true;true] [] [0].
 
 (* (1c) HTTP (net/http and fasthttp have the same shape): server_http_gohttp.go ServeHTTP/readReqMsg. One thread.
@@ -282,7 +282,7 @@ Definition http_h : list instr :=
   [ IRd 1; IRd 2; IRd 4; IAcq 5; IWr 5;            (* mustHaveRespB *)
     IRd 5;                                         (* w.Write(msgBody) *)
     IRel 5 ] ++ release_rc 2 4 ++ [ IRel 1; IHalt ].  (* defers, LIFO *)
-Definition P_http : proto :=
+Definition Pown_http : proto :=
   mkProto [http_h] [0;0;0;0;0;0] [true;true;true;true;true;true] [] [].
 
 (* (2) gnet: server_tcp_gnet_linux.go OnTraffic.  Threads: 0 event loop, 1 handler goroutine.
@@ -305,7 +305,7 @@ Definition gnet_h (pack_ok : bool) : list instr :=
     IRd 1; IWr 5;                                    (* 20,21: fallback makeEmptyRespM(query = m, ..): reads the released m *)
     IGive 5 0; ISet 1 1 ] ++                         (* 22,23: c.AsyncWrite(buf, callback) *)
   release_rc 2 4 ++ [ IHalt ].
-Definition P_gnet (pack_ok : bool) : proto :=
+Definition Pown_gnet (pack_ok : bool) : proto :=
   mkProto [gnet_el; gnet_h pack_ok] [0;0;0;0;0;0] [false;true;true;true;true;true] [] [0;0].
 
 (* (3) pipeline exchange: pipeline_conn.go exchange/readLoop/write.  Threads: 0 exchange caller, 1 read loop,
@@ -330,7 +330,7 @@ Definition pipe_rl (double : bool) : list instr :=
     IAcq 2; IWr 2;                          (* 7,8: the next frame carries the same id *)
     IIfEq 1 0 13; ITrySend 0 2 13; IGoto 14; IHalt; IRel 2; IHalt ].
 Definition pipe_x : list instr := [ ISet 0 1; IHalt ].
-Definition P_pipeline (double : bool) : proto :=
+Definition Pown_pipeline (double : bool) : proto :=
   mkProto [pipe_c; pipe_rl double; pipe_x] [0;0;0] [true;true;true] [1] [0;0].
 
 (* (4) reuse exchange: reuse_transport.go ExchangeContext/exchangeConnCtx/exchangeConn.  Threads: 0 caller,
@@ -349,7 +349,7 @@ Definition reuse_w_pinned : list instr :=
     IAcq 2; IWr 2;                          (* 3,4: ReadMsgFromTCP *)
     ISend 0 2;                              (* 5: resChan <- res{m: resp} *)
     IHalt ].
-Definition P_reuse_pinned : proto :=
+Definition Pown_reuse_pinned : proto :=
   mkProto [reuse_c_pinned; reuse_w_pinned; [ISet 1 1; IHalt]] [0;0;0] [true;true;true] [1] [0;0].
 
 Definition reuse_c_fixed : list instr :=
@@ -367,7 +367,7 @@ Definition reuse_w_fixed : list instr :=
     ISend 0 2;                              (* 5 *)
     IRel 1;                                 (* 6: deferred ReleaseBuf(payloadCopy) *)
     IHalt ].
-Definition P_reuse_fixed : proto :=
+Definition Pown_reuse_fixed : proto :=
   mkProto [reuse_c_fixed; reuse_w_fixed; [ISet 1 1; IHalt]] [0;0;0] [true;true;true] [1] [0;0].
 
 (* (4q) QUIC exchange: quic_transport.go exchangeStream shares payload with its goroutine like the pinned reuse
@@ -386,7 +386,7 @@ Definition quic_w : list instr :=
     IAcq 2; IWr 2; ISend 0 2; IHalt;        (* 6..9 *)
     IRel 3;                                 (* 10: Write returns the cancel error *)
     IHalt ].
-Definition P_quic : proto :=
+Definition Pown_quic : proto :=
   mkProto [quic_c; quic_w; [ISet 1 1; IHalt]] [0;0;0;0] [true;false;true;false] [1] [0;0;0].
 
 (* (5) cache entry recycling: internal/cache/mem.go Get/Store/releaseEntry.  The entry's fields are owned through
@@ -426,17 +426,17 @@ Definition cache_store : list instr :=
     IAcq 0; IWr 0; ISet 1 2; IGive 2 CACHE; ISet 2 2;   (* 4..8: Lock; e.k = k2; e.v = vCopy *)
     IRel 0;                                 (* 9: Unlock *)
     IHalt ].
-Definition P_cache (recheck : bool) : proto :=
+Definition Pown_cache (recheck : bool) : proto :=
   mkProto [cache_get recheck; cache_evict; cache_store] [RELEASED; owned CACHE; 0; 0] [false;true;true;true] []
           [1;1;1;0;0].
 
 (* ------------------------------------------------------------------ named protocols / schedules for the runner *)
 Definition proto_of (n : nat) : proto :=
   match n with
-  | 0 => P_reuse_pinned | 1 => P_reuse_fixed | 2 => P_quic
-  | 3 => P_pipeline false | 4 => P_pipeline true
-  | 5 => P_udp | 6 => P_tcp | 7 => P_http | 8 => P_gnet true | 9 => P_gnet false
-  | 10 => P_cache true | 11 => P_cache false | _ => P_udp_alias
+  | 0 => Pown_reuse_pinned | 1 => Pown_reuse_fixed | 2 => Pown_quic
+  | 3 => Pown_pipeline false | 4 => Pown_pipeline true
+  | 5 => Pown_udp | 6 => Pown_tcp | 7 => Pown_http | 8 => Pown_gnet true | 9 => Pown_gnet false
+  | 10 => Pown_cache true | 11 => Pown_cache false | _ => Pown_udp_alias
   end.
 
 (* schedules of the stream-exchange protocols (caller 0, worker 1, context 2).  [n] = number of caller steps before the
@@ -468,7 +468,7 @@ Definition stream_sched (p k : nat) : list pick :=
   end.
 
 Definition own_verdict (p k : nat) : option nat :=
-  match run (proto_of p) (init (proto_of p)) (stream_sched p k) with
+  match own_run (proto_of p) (own_init (proto_of p)) (stream_sched p k) with
   | Some s => Some (viol s)
   | None => None
   end.
@@ -480,7 +480,7 @@ Definition pipe_sched (k : nat) : list pick :=
   | _ => rep (T 0 0) 5 ++ [T 2 0; T 0 0; T 0 0] ++ rep (T 1 0) 8
   end.
 Definition pipe_verdict (double : bool) (k : nat) : option nat :=
-  match run (P_pipeline double) (init (P_pipeline double)) (pipe_sched k) with
+  match own_run (Pown_pipeline double) (own_init (Pown_pipeline double)) (pipe_sched k) with
   | Some s => Some (viol s)
   | None => None
   end.
